@@ -1,6 +1,7 @@
 import DepsDev.Proofs.C03Npm
 import DepsDev.Proofs.C03Cargo
 import DepsDev.Proofs.C03Sat
+import DepsDev.Proofs.C03Pypi
 import DepsDev.Ref.MavenRange
 
 /-!
@@ -26,12 +27,18 @@ answer for the single-comparator requirement (`npm_single_release_partial`,
 `cargo_single_release_partial`, `cargo_star`). Their hypotheses lie inside the complement
 of every finding class (`npm_classes_nil`, `cargo_classes_nil`).
 
+Layer **L1 for PyPI** on plain-release operands of up to three segments and three-segment
+final-release candidates: `== <= >= < >` (`pypi_L1`), `~=` (`pypi_L1_compat`), `== N.*`
+(`pypi_L1_eq_star`) against `Ref.PepClause.contains`.
+
 **Stated, not proved here** (`C03_npm_partial`, …): the full statements restricted to
 inputs outside the finding classes. Outside L1 they rest on the correspondence harness
 (`agree` / `not-rejected` oracles on every generated pair outside the classes, the model
 being byte-identical to the code on the same op lines): layer L2 (AND = `Intersect`, OR =
 `canon ∘ append`) additionally on C09's set laws, layer L3 (prerelease admission) and the
-string layer (tokens, `Parse`) on the correspondence alone; PyPI and Maven entirely so.
+string layer (tokens, `Parse`) on the correspondence alone; so do PyPI `!=`, PyPI operands with
+a pre/post/dev suffix or more than three segments (`rebuildExtension` re-parses the canonical
+text), and Maven entirely.
 -/
 namespace DepsDev.Props.C03
 
@@ -348,6 +355,52 @@ theorem cargo_star (x : SemVerAst) (hx : RelCand x) :
   subst hr
   exact cargo_star_aux M m p hx.major hx.minor hx.patch
 
+/-- Membership of a final-release candidate (three segments) in the span the library builds
+for one PyPI clause on a plain-release operand. -/
+def pepSpanSat (tok : Nat) (lo : Version) (x y z : Nat) : Outcome Bool :=
+  (opVersionToSpan tok lo).bind (fun s => s.contains (embedPepRel [x, y, z]) false)
+
+/-- Token type of a PEP 440 operator. -/
+def pepTok : PepOp → Nat
+  | .eq => tokEqual | .ne => tokNotEqual | .le => tokLessEqual | .ge => tokGreaterEqual
+  | .lt => tokLess | .gt => tokGreater | .compat => tokBacon
+
+/-- **L1, PyPI**: `== <= >= < >` on a plain release of one to three segments (numbers below
+`infinity - 1`), every final-release candidate of three segments: span membership is
+`Ref.PepClause.contains`. (`!=` builds two spans through `excludeToSpans`; it is not covered
+here and rests on the exhaustive correspondence stream.) -/
+theorem pypi_L1 (op : PepOp) (hop : op = .eq ∨ op = .le ∨ op = .ge ∨ op = .lt ∨ op = .gt)
+    (rel : List Nat) (hr : RShape rel) (x y z : Nat) (hx : x < B∞) (hy : y < B∞) (hz : z < B∞) :
+    pepSpanSat (pepTok op) (embedPepRel rel) x y z = .ok (PepClause.contains ⟨op, { rel := rel }, false⟩ [x, y, z]) := by
+  rcases hop with h | h | h | h | h <;> subst h
+  · exact l1_py_eq rel hr x y z hx hy hz
+  · exact l1_py_le rel hr x y z hx hy hz
+  · exact l1_py_ge rel hr x y z hx hy hz
+  · exact l1_py_lt rel hr x y z hx hy hz
+  · exact l1_py_gt rel hr x y z hx hy hz
+
+/-- **L1, PyPI `~=`** on two or three release segments (one segment is rejected by both sides). -/
+theorem pypi_L1_compat (rel : List Nat) (hr : RShape rel) (h2 : 2 ≤ rel.length)
+    (x y z : Nat) (hx : x < B∞) (hy : y < B∞) (hz : z < B∞) :
+    pepSpanSat tokBacon (embedPepRel rel) x y z = .ok (PepClause.contains ⟨.compat, { rel := rel }, false⟩ [x, y, z]) := by
+  cases hr with
+  | r1 a ha => simp at h2
+  | r2 a b ha hb => exact l1_py_compat2 a b x y z ha hb hx hy hz
+  | r3 a b c ha hb hc => exact l1_py_compat3 a b c x y z ha hb hc hx hy hz
+
+/-- **L1, PyPI `== N.*` / `== N.N.*`** (prefix matching). -/
+theorem pypi_L1_eq_star (rel : List Nat) (hr : RShape rel) (h2 : rel.length ≤ 2)
+    (x y z : Nat) (hx : x < B∞) (hy : y < B∞) (hz : z < B∞) :
+    pepSpanSat tokEqual (embedPepStar rel) x y z = .ok (PepClause.contains ⟨.eq, { rel := rel }, true⟩ [x, y, z]) := by
+  cases hr with
+  | r1 a ha => exact l1_py_eqstar1 a x y z ha hx hy hz
+  | r2 a b ha hb => exact l1_py_eqstar2 a b x y z ha hb hx hy hz
+  | r3 a b c ha hb hc => simp at h2
+
+/-- `~=` with a single release segment is rejected by the library, as by packaging. -/
+example : opVersionToSpan tokBacon (embedPepRel [1]) = .err ∧ Pep440Spec.valid [⟨.compat, { rel := [1] }, false⟩] = false := by
+  constructor <;> decide +kernel
+
 /-- The hypotheses of the L1 theorems lie outside every npm finding class. -/
 theorem npm_classes_nil (c : Comparator) (hc : L1Dom c) (x : SemVerAst) (hx : x.pre = []) :
     NpmRange.classes [.comps [c]] x = [] := by
@@ -367,6 +420,34 @@ theorem cargo_classes_nil (c : Comparator) (x : SemVerAst) (hx : x.pre = []) :
   simp only at hx
   subst hx
   simp [CargoReq.classes, NpmRange.pre000, NpmRange.gtSuccPre, CargoReq.prePartial]
+
+/-! ## Layers L2 and L3 (stated precisely; not proved here) -/
+
+/-- **L2, AND** (what `andList` does with two comparators): matching a release candidate
+against the intersection of the two single-span sets is the conjunction of the two span
+memberships. Follows from C09's intersection law for release versions; checked here by the
+correspondence (`match` on every generated two- and three-comparator list). -/
+def L2_and (sys : System) : Prop :=
+  ∀ (s1 s2 : Span) (i : VSet) (x : SemVerAst) (b1 b2 b : Bool), RelCand x →
+    VSet.intersect ⟨.default, [s1]⟩ ⟨.default, [s2]⟩ = .ok i →
+    s1.contains (embedVer sys x) false = .ok b1 → s2.contains (embedVer sys x) false = .ok b2 →
+    i.matchVersion (embedVer sys x) false = .ok b → b = (b1 && b2)
+
+/-- **L2, OR** (what `orList` does): matching against the canonicalised concatenation of the
+alternatives' spans is the disjunction of the memberships. Follows from C09's union law
+(F13 repaired the `canon` bookkeeping); checked by the correspondence. -/
+def L2_or (sys : System) : Prop :=
+  ∀ (spans out : List Span) (x : SemVerAst) (b : Bool), RelCand x →
+    canonSpans spans = .ok out → (VSet.mk sys out).matchVersion (embedVer sys x) false = .ok b →
+    b = spans.any (fun s => s.contains (embedVer sys x) false == .ok true)
+
+/-- **L3** (npm/Cargo prerelease admission for one comparator): for every candidate, prerelease
+or not, span membership is the reference's answer. Outside the finding classes (`pre000`,
+`lt0pre`); checked by the correspondence (exhaustive stream with prerelease candidates around
+every operand). -/
+def L3_npm : Prop :=
+  ∀ (c : Comparator) (x : SemVerAst), L1Dom c → NpmRange.classes [.comps [c]] x = [] →
+    spanSat .npm (tokOf c.op) c.p x = .ok (NpmRange.satisfies [.comps [c]] x)
 
 /-! ## Non-vacuity and the embedding
 
@@ -390,6 +471,12 @@ example : parse .npm (renderPartial ⟨[.n 1, .n 2, .x], []⟩) = .ok (embedPart
     parse .cargo (renderPartial ⟨[.n 10], []⟩) = .ok (embedPartial .cargo ⟨[.n 10], []⟩) ∧
     parse .npm (renderVer ⟨4, 0, 12, []⟩) = .ok (embedVer .npm ⟨4, 0, 12, []⟩) ∧
     parse .npm (renderVer ⟨4, 0, 12, [.num 7, .alnum "x-y"]⟩) = .ok (embedVer .npm ⟨4, 0, 12, [.num 7, .alnum "x-y"]⟩) := by
+  refine ⟨?_, ?_, ?_, ?_, ?_⟩ <;> decide +kernel
+
+example : parse .pypi (renderPepVer { rel := [1, 2] }) = .ok (embedPepRel [1, 2]) ∧
+    parse .pypi (renderPepVer { rel := [7] }) = .ok (embedPepRel [7]) ∧
+    parse .pypi (renderPepVer { rel := [1, 2] } ++ bs ".*") = .ok (embedPepStar [1, 2]) ∧
+    pepSpanSat tokBacon (embedPepRel [1, 2]) 1 9 0 = .ok true ∧ pepSpanSat tokBacon (embedPepRel [1, 2]) 2 0 0 = .ok false := by
   refine ⟨?_, ?_, ?_, ?_, ?_⟩ <;> decide +kernel
 
 /-- The rendered witnesses are the requirement strings of `props/C03.known.json`. -/
